@@ -792,7 +792,17 @@ fn handle_multiline_string(lexer: &mut Lexer, ctx: &mut StaticsContext, file_id:
         } else {
             indent
         };
-        let slice1 = slice2.min(lexer.index + begin + indent);
+        // strip `indent` columns of leading whitespace, measured like calculate_indent does
+        let mut slice1 = lexer.index + begin;
+        let mut stripped = 0;
+        while stripped < indent && slice1 < slice2 {
+            match lexer.chars[slice1] {
+                ' ' => stripped += 1,
+                '\t' => stripped += 4,
+                _ => break,
+            }
+            slice1 += 1;
+        }
 
         for c in &lexer.chars[slice1..slice2] {
             string_val.push(*c);
